@@ -1414,8 +1414,15 @@ impl<'a, 'b, W: Write> Serializer for &'a mut YamlSerializer<'b, W> {
                 && !self.pending_space_after_colon;
             // If we are a mapping value (space after colon was pending), we will handle
             // the newline later in SeqSer::serialize_element to keep empty sequences inline.
+            // An anchor ends the current line (`- &a1`), so the first inner dash can then no
+            // longer stay inline: it starts a new, indented line like the following ones.
+            let anchor_ends_line = self.pending_anchor_id.is_some();
             self.write_anchor_for_complex_node()?;
-            if inline_first {
+            if inline_first && anchor_ends_line {
+                // at_line_start was set by the newline after the anchor; keep it and drop
+                // the parent's "inline the first child" hint.
+                self.pending_inline_map = false;
+            } else if inline_first {
                 // Keep staged inline (pending_inline_map) so the child can inline its first dash.
                 // Ensure we stay mid-line so the child can emit its first dash inline.
                 self.at_line_start = false;
